@@ -316,6 +316,10 @@ func (p *poller) readWriteLoop() {
 						} else {
 							g.onRead(c)
 						}
+					} else if isOneshot {
+						// EPOLLONESHOT disabled the fd when it reported this
+						// write-only event: register it again by queue state.
+						c.ResetPollerEvent()
 					}
 
 					if ev.Events&epollEventsError != 0 {
